@@ -17,7 +17,7 @@ from mc import oracle as O
 PROPERTY = "C06"
 
 JSON_TYPES = ["int", "float", "str", "bool", "dict", "list", "Optional[int]", "Optional[float]", "Optional[str]", "Optional[bool]", "Optional[dict]", "Optional[list]",
-              "Literal['a', 'b']", "Literal['a', 'b', 'c']", "Literal['b', 'a']"]
+              "Literal['a', 'b']", "Literal['a', 'b', 'c']", "Literal['b', 'a']", "Literal['x-y', 'p q']", "Literal['v1.5', 'a+b']"]
 
 
 def json_defaults(t):
@@ -30,7 +30,7 @@ def json_defaults(t):
     if b == "str":
         d += [("str", "a"), ("emptystr", "")]
     if t.startswith("Literal["):
-        d += [("str", "a")]
+        d += [("str", sorted(O.literal_members(t))[0])]
     if b == "bool":
         d += [("true", True), ("false", False)]
     if t.startswith("Optional["):
@@ -151,7 +151,8 @@ def run(case):
             except Exception as e:
                 ok = "error %s" % type(e).__name__
             if ok is not True:
-                v("default_invalid_for_own_schema", "default validates against %r" % ({k: x for k, x in prop.items() if k != "default"},), repr(prop["default"]), ok=str(ok), **pclass)
+                v("default_invalid_for_own_schema", "default validates against %r" % ({k: x for k, x in prop.items() if k != "default"},), repr(prop["default"]), ok=str(ok),
+                  metachars=isinstance(prop["default"], str) and any(ch in prop["default"] for ch in ".^$*+?{}[]\\|()"), **pclass)
         members = O.literal_members(A.base_of(t)) if t else None
         if members is not None:
             pat = prop.get("pattern")
@@ -162,7 +163,8 @@ def run(case):
                 if wrong:
                     rej = [s for s in wrong if s in members]
                     v("literal_pattern_inexact", "accepts exactly %s" % sorted(members), "pattern %r wrong on %r" % (pat, wrong[:6]),
-                      kind="rejects_member" if rej else "accepts_non_member", n_members=len(members), **pclass)
+                      kind="rejects_member" if rej else "accepts_non_member", n_members=len(members),
+                      metachars=any(ch in m for m in members for ch in ".^$*+?{}[]\\|()"), **pclass)
     # round trip
     try:
         back = cdd.json_schema.parse.json_schema(deepcopy(schema_j))
